@@ -2,6 +2,7 @@ package main
 
 import (
 	"fmt"
+	"math/rand"
 	"strings"
 
 	"symgo/interp"
@@ -274,6 +275,32 @@ func M1_outcome() {
 		cases = append(cases, tc{fmt.Sprintf("del_%02d", k), join(del), -1, "nil", "nil"})
 		dup := append(append(append([]string{}, toks[:k+1]...), toks[k]), toks[k+1:]...)
 		cases = append(cases, tc{fmt.Sprintf("dup_%02d", k), join(dup), -1, "nil", "nil"})
+	}
+	if tier == "thorough" {
+		// seeded byte-level mutations: the front end must return normally on each (a native panic
+		// surfaces as a crash) and the entry points must agree
+		r := rand.New(rand.NewSource(seed*31 + 5))
+		alphabet := "\"\\{}()[];=+-*/<>!&|.,@#$`~ \n\t0aZ_\x00\x7f\xc3\xa9"
+		for k := 0; k < 240; k++ {
+			bs := []byte(good)
+			for m := 0; m <= k%3; m++ {
+				pos := r.Intn(len(bs) + 1)
+				ch := alphabet[r.Intn(len(alphabet))]
+				switch r.Intn(3) {
+				case 0:
+					if pos < len(bs) {
+						bs = append(bs[:pos], bs[pos+1:]...)
+					}
+				case 1:
+					bs = append(bs[:pos], append([]byte{ch}, bs[pos:]...)...)
+				default:
+					if pos < len(bs) {
+						bs[pos] = ch
+					}
+				}
+			}
+			cases = append(cases, tc{fmt.Sprintf("byte_%03d", k), string(bs), -1, "nil", "nil"})
+		}
 	}
 	for _, c := range cases {
 		name := "M2_" + c.id
